@@ -322,8 +322,9 @@ class Fourier:
         # 1. Interpolate between fmin and fmax.
 
         # If freq_coarse is not exactly freq_required, we use cubic spline to
-        # interpolate from fmin to fmax.
-        if self.freq_coarse.size != self.freq_required.size:
+        # interpolate from fmin to fmax. (Compare the frequencies, not only
+        # their number: `input_freq` can have the size of `freq_required`.)
+        if not np.array_equal(self.freq_coarse, self.freq_required):
 
             Spline = sp.interpolate.InterpolatedUnivariateSpline
             int_real = Spline(np.log(self.freq_compute),
